@@ -39,7 +39,7 @@ ASSUMPTIONS = ["field order inside an item follows choices column order (as the 
 def plan(tier, seed):
     n = 1600 if tier == "quick" else 24000
     return {"shards": 16, "timeout": 900 if tier == "quick" else 3600, "n": n,
-            "floors": {"instances_compared": n, "itemsets_parsed": n, "csv_compared": n // 12, "distinct": 100}}
+            "floors": {"suite_conversions_judged": 500, "instances_compared": n, "itemsets_parsed": n, "csv_compared": n // 12, "distinct": 100}}
 
 
 EXTRA = ["region", "code", "grp", "lvl", "zone"]
